@@ -79,7 +79,34 @@ const CALLS_IDENT: [Stmt; 5] = [
   Stmt { text: "baz(3)", plants: &[] },
 ];
 
-static LANGS: [LangSpec; 5] = [
+/// statements that span TWO lines (the finding starts on the first). A comment requested for such a
+/// line is written on its own line INSIDE the statement (after the first line): it governs the
+/// statement's second line, where no finding starts, so it silences nothing — while an own-line
+/// comment on the line before still governs the finding's start line. (Trailing comments are
+/// quantified over single-line statements only.)
+const CALLS_TWO_LINES: [Stmt; 5] = [
+  Stmt { text: "foo(\n1)", plants: &[(0, 0, 7)] },
+  Stmt { text: "bar(\n2)", plants: &[(1, 0, 7)] },
+  Stmt { text: "foo(bar(\n2))", plants: &[(0, 0, 12), (1, 4, 11)] },
+  Stmt { text: "foo(1); bar(\n2)", plants: &[(0, 0, 6), (1, 8, 15)] },
+  Stmt { text: "baz(\n3)", plants: &[] },
+];
+
+static LANGS: [LangSpec; 6] = [
+  LangSpec {
+    name: "javascript-two-line-statements",
+    lang: SupportLang::JavaScript,
+    yaml_lang: "JavaScript",
+    stmts: CALLS_TWO_LINES,
+    open: "// ",
+    close: "",
+    block_header: &["function f() {"],
+    block_footer: &["}"],
+    indent: "  ",
+    r1: r#"{"pattern": "foo($$$)"}"#,
+    r2: r#"{"pattern": "bar($$$)"}"#,
+    fix: "qux()",
+  },
   LangSpec {
     name: "javascript-low-kind-ids",
     lang: SupportLang::JavaScript,
@@ -261,6 +288,36 @@ fn build(spec: &LangSpec, block: bool, tab: &[IdList; 5], lines: &[usize]) -> La
     }
     if s > 0 {
       stripped.push_str(indent);
+    }
+    let two_lines = s > 0 && spec.stmts[s - 1].text.contains('\n');
+    if two_lines {
+      let st = &spec.stmts[s - 1];
+      let base = source.len();
+      let nl = st.text.find('\n').unwrap();
+      // the comment (if any) goes on its own line after the statement's first line; the
+      // comment-free copy gets as many spaces, so that byte ranges are the same in both
+      let inside = if c > 0 { format!("{indent}{}ast-grep-ignore{}{}\n", spec.open, tab[c - 1].tail, spec.close) } else { String::new() };
+      for &(rule, a, b) in st.plants {
+        let b2 = if b > nl { b + inside.len() } else { b };
+        findings.push(Finding { rule, line: line_no, range: (base + a, base + b2) });
+      }
+      source.push_str(&st.text[..=nl]);
+      stripped.push_str(&st.text[..=nl]);
+      line_no += 1;
+      if c > 0 {
+        let start = source.len() + indent.len();
+        source.push_str(&inside);
+        stripped.push_str(&" ".repeat(inside.len() - 1));
+        stripped.push('\n');
+        comments.push(Comment { line: line_no, own: true, ids: tab[c - 1].ids, range: (start, source.len() - 1) });
+        line_no += 1;
+      }
+      source.push_str(&st.text[nl + 1..]);
+      stripped.push_str(&st.text[nl + 1..]);
+      source.push('\n');
+      stripped.push('\n');
+      line_no += 1;
+      continue;
     }
     if s > 0 {
       let st = &spec.stmts[s - 1];
@@ -634,13 +691,13 @@ fn eval_layout(
   // harness sanity (never a verdict): planted == found, with and without the comments
   let mut planted = lay.findings.clone();
   planted.sort();
+  let two_line_family = spec.stmts.iter().any(|s| s.text.contains('\n'));
   match verified {
-    Some(set) => {
-      if !set.contains(&lay.stripped) {
-        machinery(&format!("comment-free copy was not pre-verified: {:?}", lay.stripped));
-      }
-    }
-    None => {
+    Some(set) if set.contains(&lay.stripped) => {}
+    Some(_) if !two_line_family => machinery(&format!("comment-free copy was not pre-verified: {:?}", lay.stripped)),
+    // (a comment inside a two-line statement leaves a line of spaces in the comment-free copy,
+    // which the pre-verified set does not contain: verified here)
+    _ => {
       let sroot = spec.lang.ast_grep(&lay.stripped);
       if by_column(&lay.stripped, &found(sub, &sroot)) != by_column(&lay.source, &planted) {
         machinery(&format!("planted findings differ from find_all on the comment-free copy {:?}", lay.stripped));
@@ -886,7 +943,7 @@ fn main() {
     "exploration",
     cov,
     vec![
-      "comments are single-line, well-formed, generated (their lines and id lists are known, not re-derived from the tree); a trailing comment follows a single-line statement; no finding spans several lines".into(),
+      "comments are single-line, well-formed, generated (their lines and id lists are known, not re-derived from the tree); a trailing comment follows a single-line statement; in the two-line-statement family a comment requested for a statement line is an own-line comment INSIDE the statement (governs its second line, silences nothing)".into(),
       "where a finding is reported (matches vs diffs) and in which order is not judged: per rule id the multiset of (start line, byte range) is compared".into(),
       "harness sanity (exit 2, never a verdict): planted findings equal find_all of each rule's matcher on the source and on its comment-free copy".into(),
       "dev profile, opt-level 1; deterministic".into(),
